@@ -126,9 +126,12 @@ func Finding(id string) { cur.Findings = append(cur.Findings, id) }
 
 func Observe(name string, v int64)     { cur.Observed[name] = strconv.FormatInt(v, 10) }
 func ObserveBool(name string, v bool)  { cur.Observed[name] = strconv.FormatBool(v) }
-func ObserveStr(name string, v string) { cur.Observed[name] = v }
+func ObserveStr(name string, v string) { cur.Observed[name] = strconv.Quote(v) }
 
 func MapOrderNondet(on bool)          {}
+
+// MapOrderNondetFor marks one map whose iteration order the engine explores.
+func MapOrderNondetFor(m interface{}) {}
 
 // MapOrderReps: how often a harness repeats a map-order dependent call. Under
 // the engine the iteration order is a symbolic choice, so once; natively the
